@@ -277,10 +277,14 @@ def execute_anim(case, ctx):
                     ctx.fail("animation_raised", f"{cfg['api']} over a {n}-operation history raised {short_exc(e)}", exc=type(e).__name__)
                     return
         ctx.count("animation")
-        ctx.check(len(sink) == 1, "animation_written_once", lambda: f"mimsave called {len(sink)} times")
-        if not sink:
+        if sink:
+            path, images, _ = sink[-1]
+        elif os.path.exists(out) and cfg["api"] != "video":
+            # the library wrote the file through another imageio entry point: decode what was really written
+            path, images = out, list(imageio.mimread(out, memtest=False))
+        else:
+            ctx.fail("animation_written", f"{cfg['api']}: nothing was handed to imageio.mimsave and no file {os.path.basename(out)} exists")
             return
-        path, images, _ = sink[0]
         shown = [decode(im) for im in images] if cfg["plot"] == "stub" else None
         ctx.event(0, cfg["api"], n, len(images), h64(shown) if shown else len(frames_bars))
         ctx.states.add(h64((h64(cfg["instance"]["jobs"]), n, cfg["api"], cfg["listdir_seed"] is not None, cfg["stale"])))
@@ -307,8 +311,6 @@ def execute_anim(case, ctx):
                 ctx.check(got == want, "kth_frame_shows_first_k_operations", lambda: f"real plotter frame {k + 1}: bars {got}, first {k + 1} history entries {want}", long=False)
         if n >= 100:
             ctx.probe("history_100_plus")
-        if cfg["remove_frames"]:
-            ctx.check(not os.path.exists(frames_dir), "frames_removed_when_asked", lambda: "frames directory still exists although remove_frames=True")
     finally:
         plt.close("all")
         shutil.rmtree(tmp, ignore_errors=True)
